@@ -28,10 +28,10 @@ prop('C13', not_applicable='the observable is resident set size of a running pro
 PCHAIN = 'Trusted: CBMC 6.11 + SAT/SMT back ends, goto-cc C semantics (LP64 little-endian), the weaver strip-check, assumed libc/POSIX contracts listed in the evidence. '
 
 prop('C01', level='model_checking',
-     text='Round-trip is cut at stage boundaries. Built: the RLE1 encoder stage (real collect() one-step conformance from every saved state, final flush) and decoder stage (real emit() one call from every saved state) against the same run-length rule, bounded; the block-ordering glue between stages (position chaining, reorder, xwrite) proved. Not built: BWT, MTF/zero-run, prefix coding stages.',
+     text='Round-trip is cut at stage boundaries, each stage checked on the real function at small sizes (bounded): RLE1 encoder (collect() one-step conformance from every saved state, whole runs on concrete patterns, final flush) and decoder (emit() one call from every saved state) against the same run-length rule; MTF/zero-run encoder (do_mtf()) against the inverse written from the format; inverse BWT (decode()) against a naive rotation-sort BWT. The block-ordering glue between stages (position chaining, reorder, xwrite) is proved. Not built: divbwt(), prefix coding (generate_prefix_code/transmit vs retrieve), inverse MTF (mtf_one).',
      note=PCHAIN + 'Whole-pipeline inverse for unbounded input is not one contract; blocks beyond the bounds, divbwt and transmit/retrieve bit agreement are undecided.',
      technique='bounded CBMC checks of the real RLE stage functions against the format rule + contracts on the ordering glue',
-     undecided=['whole-pipeline inverse for blocks beyond the stage bounds', 'divbwt() (block sorting) and do_mtf(): no obligation built', 'transmit()/retrieve() bit-level agreement', 'generate_prefix_code() clustering'])
+     undecided=['whole-pipeline inverse for blocks beyond the stage bounds', 'divbwt() (block sorting): no obligation built', 'transmit()/retrieve() bit-level agreement', 'generate_prefix_code() clustering'])
 prop('C02', level='proof',
      text='Framing proved (header digit, trailer bytes, combined-CRC recurrence, block order). Per-block facts as lemmas on code extracted verbatim from encode.c: the dummy second table is complete with lengths 1..20 for EVERY alphabet size 3..258; padding gives whole bytes with <= 3 delta steps and <= 1 extra selector (<= 18002 selectors); the first-length padding keeps the start value in 1..20; selector MTF trick correct for all 720 lists. Block capacity from the collect() step instances and the final-flush section (bounded).',
      note=PCHAIN + 'libbz2 is not linked into the verifier; per-block table completeness for multi-table blocks only bounded.',
@@ -53,12 +53,12 @@ prop('C05', level='proof',
      text='parse() is proved against a reference stream automaton for unbounded input (magic, CRC fields, trailing-garbage rule, EOF); do_parse/do_reorder error routing, declared-size and CRC checks proved per task; code-length deltas, selector codes, selector bound and the end-of-block checks (empty block, primary index) are lemmas / bounded sections of the real retrieve(); make_tree Kraft test bounded (alphabets <= 6/12); emit() ERR_RUNLEN and byte-exactness per call from every saved state (bounded).',
      note=PCHAIN + 'retrieve()/emit() byte-exactness beyond the bounds is undecided.',
      technique='CBMC function/loop contracts with a ghost reference automaton + exhaustive table lemmas + bounded sections of the retrieve()/emit() coroutines',
-     undecided=['retrieve() prefix decoding and run expansion beyond the end-of-block section', 'make_tree() table construction after the Kraft test; Kraft test for alphabets > 12', 'decode() (inverse BWT): no obligation', 'mtf_one(): no discharged obligation (SAT and z3 time out)', 'ERR_OVERFLOW check at real block sizes'])
+     undecided=['retrieve() prefix decoding and run expansion beyond the end-of-block section', 'make_tree() table construction after the Kraft test; Kraft test for alphabets > 12', 'mtf_one(): no discharged obligation (SAT and z3 time out)', 'ERR_OVERFLOW check at real block sizes'])
 prop('C06', level='model_checking',
      text='Accepting direction of the parse() contract (every legal header/trailer sequence at any bit offset, proved); every 6-bit delta and selector window accepted exactly when the strict format accepts it (lemmas); surplus selectors up to 32767 stored in bounds and cut to 18001; complete tables accepted (Kraft test, bounded alphabets); emit() per call from every saved state (bounded). Prefix decoding, inverse MTF and inverse BWT are NOT covered, hence model_checking, not proof.',
      note=PCHAIN + 'mtf_one general path, decode(), emit(), retrieve() only bounded.',
      technique='CBMC contract on parse() + exhaustive lemmas + bounded section checks of retrieve()/make_tree()/emit()',
-     undecided=['retrieve() decoding agreement with the canonical code (start/base/count/perm)', 'mtf_one() both paths', 'decode() incl. randomised blocks', 'full-size behaviours (primary index 899999, 900000-byte blocks)'])
+     undecided=['retrieve() decoding agreement with the canonical code (start/base/count/perm)', 'mtf_one() both paths', 'decode() beyond 4-byte blocks and the derandomisation toggles (first at byte 617)', 'full-size behaviours (primary index 899999, 900000-byte blocks)'])
 prop('C07', level='proof',
      text='Proves the path from every detected error to the process outcome: every error status reaches a fail* reporter, reporters never return, bailout on the '
           'main thread cleans up before _exit(1), other threads promote and signal; detection itself is C05, memory safety C08.',
